@@ -140,6 +140,24 @@ pub fn get_input_list(
     }
 }
 
+/// Reads a list of sample names from a file, one name per line.
+///
+/// Only the first whitespace separated field of each line is used, so a
+/// `name\tseq1\tseq2` list as given to `ska build` is also accepted.
+/// Empty lines are skipped.
+pub fn read_name_list(name_file: &str) -> Vec<String> {
+    let f = File::open(name_file).expect("Unable to open file_list");
+    let f = BufReader::new(f);
+    let mut names = Vec::new();
+    for line in f.lines() {
+        let line = line.expect("Unable to read line in file_list");
+        if let Some(name) = line.split_whitespace().next() {
+            names.push(name.to_string());
+        }
+    }
+    names
+}
+
 /// Checks if any input files are fastq
 pub fn any_fastq(files: &[InputFastx]) -> bool {
     files.iter().any(|file| file.2.is_some())
